@@ -738,3 +738,188 @@ PROPS["C01"] = dict(
     suites=[("roundtrip", dict(cmp=cmp_c01, nontrivial=lambda p, i, m: m.startswith("ok") and len(m.split()[1]) >= 6, shrink=False,
                                what="refmt.MarshalAtlased then refmt.UnmarshalAtlased into a fresh variable: bytes and value vs Marshal.marshal_top |> encoder |> decoder |> Unmarshal.unmarshal_top; Go-level equality with the property's exemptions"))],
 )
+
+
+# ---------------------------------------------------------------------------
+# D5c: JSON, an integral float >= 2^53 in an untyped slot: the ES6 text pads the shortest digits
+# with zeros (2^63 -> 9223372036854776000), which the decoder re-types as that (different) integer.
+# ---------------------------------------------------------------------------
+
+def has_big_integral_float_in_untyped_slot(payload):
+    for m in _re.finditer(r"\(a f(?:64|32) \(f ([0-9a-f]{16})\)\)", payload):
+        f = _float_of_bits(m.group(1))
+        if f != f or f in (float("inf"), float("-inf")):
+            continue
+        if abs(f) >= 2.0 ** 53 and abs(f) < 1e21 and f == int(f):
+            return True
+    return False
+
+
+def kf_d5c(sname, m):
+    return sname in ("roundtrip", "remarshal") and m.get("payload", "").startswith("j") and \
+        has_big_integral_float_in_untyped_slot(m.get("payload", "")) and "not equal" in m.get("detail", "")
+
+
+FINDING_CLASSES["json-big-integral-float-in-untyped-slot"] = kf_d5c
+
+
+# ---------------------------------------------------------------------------
+# C12 remarshal: impl = "ok d= d1= back= eq= fix= native= same1=" | errN.. ; model = "ok d= d1= back= fix=" | errN
+# ---------------------------------------------------------------------------
+_KV = _re.compile(r"(\w+)=(\S+)")
+
+
+def cmp_c12(payload, impl, model):
+    if impl.startswith("panic"):
+        return viol("panicked at stage %s" % impl[5:])
+    isj = payload.startswith("j")
+    if model.startswith("ok"):
+        if not impl.startswith("ok"):
+            return viol("re-marshalling pipeline failed at stage %s (model: succeeds)" % impl[:40])
+        kv = dict(_KV.findall(impl))
+        mkv = dict(_KV.findall(model))
+        if kv.get("eq") != "1":
+            return viol("decoding the re-marshalled document into the original type gives a value that is not equal to the original: %s" % kv.get("back", "")[:150])
+        if kv.get("fix") != "1":
+            return viol("the re-marshalled document is not a byte-exact fixpoint")
+        if kv.get("native") == "1" and kv.get("same1") != "1":
+            # JSON re-reads -0 as 0: the one allowed difference
+            if not (isj and "8000000000000000" in payload):
+                return viol("a value of native untyped kinds did not re-marshal byte-identically in the first round: %s vs %s" % (kv.get("d", "")[:60], kv.get("d1", "")[:60]))
+        if kv.get("d") != mkv.get("d") or kv.get("d1") != mkv.get("d1") or kv.get("back") != mkv.get("back"):
+            return viol("bytes/value differ from the model composition: impl %s model %s" % (impl[:150], model[:150]))
+        return None
+    # the model itself fails: the faithful model refutes the property on this input
+    if impl.startswith("ok"):
+        return mism("model pipeline fails (%s) but the implementation succeeds" % model[:30])
+    if model.startswith("err1"):
+        return None      # the value is not representable at all: C12 is silent
+    return viol("re-marshalling pipeline failed at stage %s: its own output cannot be read back (the faithful model agrees)" % impl[:12])
+
+
+PROPS["C12"] = dict(
+    coq="Properties_C12",
+    level_text="Proved in Coq on the model composition (marshal, codec, untyped unmarshal, marshal again): token-level statements that the untyped unmarshaller returns a value whose rendering is the canonical form of the tokens it read, so that a second re-marshal reproduces the first byte for byte; composed with the codec round-trip theorems. Tied to refmt.Marshal / Unmarshal(&interface{}) / Marshal end to end: the three documents, the value read back into the original type, the fixpoint and the native-first-round identity are compared with the model pipeline and checked directly on the real bytes.",
+    level_note="Trusted as in trusted_base. The JSON float oracle applies. No axioms.",
+    rule="(format, type, value, atlas); non-trivial = first document of at least 3 bytes; distinct by payload",
+    trusted_base=_OBJ_TB,
+    assumptions=["values in untyped slots are native kinds or tagged registered types"],
+    suites=[("remarshal", dict(cmp=cmp_c12, nontrivial=lambda p, i, m: m.startswith("ok") and len(dict(_KV.findall(m)).get("d", "")) >= 6, shrink=False,
+                               what="Marshal(v) -> Unmarshal(&interface{}) -> Marshal -> Unmarshal into T / into interface{} -> Marshal: documents, value, fixpoint, native identity"))],
+)
+
+_old_kf2 = FINDING_CLASSES["json-integral-float-beyond-uint64"]
+FINDING_CLASSES["json-integral-float-beyond-uint64"] = lambda s, m: _old_kf2(s, m) or (s == "remarshal" and m.get("payload", "").startswith("j") and has_unreadable_integral_float_value(m.get("payload", "")) and "cannot be read back" in m.get("detail", ""))
+
+
+# ---------------------------------------------------------------------------
+# C11 clone: impl = "ok <value> eq= indep= srcsame=" | err | panic ; model = "ok <value>" | err
+# ---------------------------------------------------------------------------
+
+def cmp_c11(payload, impl, model):
+    if impl.startswith("panic"):
+        return viol("Clone panicked")
+    if model.startswith("ok"):
+        if not impl.startswith("ok"):
+            return viol("Clone failed on a representable value")
+        kv = dict(_KV.findall(impl))
+        if kv.get("indep") != "1":
+            return viol("the clone is not independent: a mutation through one side is visible through the other")
+        if kv.get("srcsame") != "1":
+            return viol("Clone modified its source")
+        if kv.get("eq") != "1":
+            return viol("the clone is not equal to the source: %s" % impl[:150])
+        if impl.split(" eq=")[0] != model:
+            return viol("the cloned value differs from the model: %s vs %s" % (impl[:120], model[:120]))
+        return None
+    if impl.startswith("ok"):
+        return viol("Clone succeeded on a value the model cannot represent: %s" % impl[:100])
+    return None
+
+
+PROPS["C11"] = dict(
+    coq="Properties_C11",
+    level_text="Proved in Coq: clone = the marshaller's tokens fed to the unmarshaller; by the token round-trip theorem the destination re-marshals to the source's tokens, and in the model with byte-string copying (D8) the destination value is built only from token payloads (fresh storage). Tied to refmt.CloneAtlased by the correspondence run, which also mutates every byte, element, map entry and pointee reachable from the destination and checks the source is unchanged (and vice versa), on values holding byte slices and arrays at every kind of position.",
+    level_note="Storage independence is checked dynamically by exhaustive mutation of each cloned value (the Gallina values are immutable, so aliasing is outside what the model can state); equality and the values themselves come from the model. Trusted as in trusted_base. No axioms.",
+    rule="(type, value, atlas); non-trivial = the value contains a slice, map or pointer; distinct by payload",
+    trusted_base=_OBJ_TB,
+    assumptions=[],
+    suites=[("clone", dict(cmp=cmp_c11, nontrivial=lambda p, i, m: any(k in p for k in ("(sl ", "(mp ", "(pt ", "(x ")), shrink=False,
+                           what="refmt.CloneAtlased(src, &dst): value vs model; equality; mutation-independence both ways; source unchanged"))],
+)
+
+
+# ---------------------------------------------------------------------------
+# C17 history: impl = "<outs> | same=<0|1>" ; model = "<outs>"
+# ---------------------------------------------------------------------------
+
+def cmp_c17(payload, impl, model):
+    if impl.startswith("panic"):
+        return viol("a call on a reused instance panicked")
+    outs, _, same = impl.partition(" | same=")
+    if same.strip() != "1":
+        return viol("a call on a long-lived instance gave a different result than a fresh instance (or an item was not framed cleanly): %s" % outs[:200])
+    if outs != model:
+        return viol("results differ from the model: impl %s model %s" % (outs[:150], model[:150]))
+    return None
+
+
+PROPS["C17"] = dict(
+    coq="Properties_C17",
+    level_text="Proved in Coq: the codec models' Reset re-establishes the initial state from any state (phase stacks, some-flag, countdown list), the object-layer models carry no state between calls, and the only state that legitimately survives a call is the reader position incl. the one-byte push-back (C15) — so a call on a reused instance equals the call on a fresh one over the remaining input; items written back to back are read back one per call (decoders consume exactly their item: C02/C04/C05 'rest' theorems). Tied to long-lived refmt Marshaller / Unmarshaller / Cloner instances by random histories with failing calls in between, each call compared with a fresh instance and with the model.",
+    level_note="slab-row reuse inside obj.Marshaller/Unmarshaller is not modelled (fresh machine state per value in the model); the history suite is what pins it. Trusted as in trusted_base. No axioms.",
+    rule="histories of 2-6 marshal calls + as many unmarshal calls + clone calls (with failing calls); non-trivial = at least 3 successful calls; distinct by payload",
+    trusted_base=_OBJ_TB,
+    assumptions=["a failed Unmarshal call may leave the stream mid-item; only calls on intact streams are constrained"],
+    suites=[("history", dict(cmp=cmp_c17, nontrivial=lambda p, i, m: m.count("m:") >= 3, shrink=False,
+                             what="one Marshaller writing all items into one stream (failed calls rolled back), one Unmarshaller reading them back one per call plus one call on the exhausted stream, one Cloner with failing calls in between; each compared with fresh instances and the model"))],
+)
+
+
+# ---------------------------------------------------------------------------
+# C20: tags.  obj-marshal (tags on tokens), cbor-tags (foreign CBOR into untyped), roundtrip bytes
+# ---------------------------------------------------------------------------
+
+def _tags_of(toks):
+    out = []
+    for i, t in enumerate(toks.split()):
+        if t.startswith("#"):
+            j = 1
+            while j < len(t) and (t[j].isdigit() or t[j] == "-"):
+                j += 1
+            out.append((i, t[1:j]))
+    return out
+
+
+def cmp_c20_marshal(payload, impl, model):
+    il, _, itoks = impl.partition(" | ")
+    ml, _, mtoks = model.partition(" | ")
+    if il.split()[0] != "ok" or ml.split()[0] != "ok":
+        return None
+    if _tags_of(itoks) != _tags_of(mtoks):
+        return viol("tags on the emitted tokens %s differ from the registered occurrences %s" % (_tags_of(itoks)[:6], _tags_of(mtoks)[:6]))
+    return None
+
+
+def cmp_c20_untyped(payload, impl, model):
+    if impl.startswith("panic"):
+        return viol("panic while decoding tagged CBOR into an untyped variable")
+    if impl != model:
+        if model == "err":
+            return viol("model: error (unregistered tag in an untyped position, or malformed); implementation returned %s" % impl[:120])
+        return viol("reconstruction through tags differs: model %s impl %s" % (model[:120], impl[:120]))
+    return None
+
+
+PROPS["C20"] = dict(
+    coq="Properties_C20",
+    level_text="Proved in Coq on the marshaller model: tokens carry a tag exactly on the first token of each item whose (static or dynamic) type has a tagged atlas entry (struct maps and transforms; a tagged transform overrides its wire type's own tag), and the CBOR encoder writes each tag head immediately before its item (C02). On the unmarshaller model: a tagged token reaching an untyped slot is unmarshalled as the registered type and stored with that dynamic type, and an unregistered tag is an error. Tied to the code by the obj-marshal suite (tag positions and numbers across all head sizes), foreign CBOR with registered/unregistered/relocated tags decoded into interface{}, and the round-trip bytes.",
+    level_note="Trusted as in trusted_base. Entries built with UseTag + MapMorphism/KeyedUnion never emit their tag (outside the property's quantifier; recorded in DESIGN.md). No axioms.",
+    rule="obj-marshal / cbor-tags cases; non-trivial = at least one tag in the model's tokens or input; distinct by payload",
+    trusted_base=_OBJ_TB,
+    assumptions=[],
+    suites=[
+        ("obj-marshal", dict(cmp=cmp_c20_marshal, nontrivial=lambda p, i, m: "#" in m, shrink=False, what="tags on marshalled tokens vs the model")),
+        ("cbor-tags", dict(cmp=cmp_c20_untyped, nontrivial=lambda p, i, m: True, shrink=False, what="foreign CBOR (marshalled values with tags kept, changed, inserted; random items) into interface{} vs dec_run |> unmarshal_top GAny")),
+    ],
+)
